@@ -159,7 +159,7 @@ def _name_return(header):
     return header[:idx] + '-> (r: ' + header[idx + 2:].strip() + ')', header[idx + 2:].strip()
 
 
-def build(repo, out_path, prop=None, extra=(), dropped=()):
+def build(repo, out_path, prop=None, extra=(), dropped=(), lost=None):
     """Returns (text, index) where index maps generated line ranges to items."""
     cache = {}
 
@@ -191,6 +191,10 @@ def build(repo, out_path, prop=None, extra=(), dropped=()):
             else:
                 it = rustscan.find_type(items, spec['kind'], spec['name'])
         except rustscan.ScanError as e:
+            if lost is not None and spec['kind'] == 'fn' and not spec.get('external_body') and not spec.get('spec_twin'):
+                # the function under contract is gone (renamed / inlined): only ITS obligation becomes undecided
+                lost.append(spec)
+                continue
             raise ExtractError('lost anchor in %s: %s' % (spec['file'], e))
         if spec['kind'] != 'fn':
             text = _strip_lines(src[it.start:it.end])
@@ -276,7 +280,8 @@ def run_for_property(prop, repo, out_dir, log):
     data, p, index, wall = None, None, [], 0.0
     for attempt in range(6):
         try:
-            text, index = build(repo, out_path, prop, extra, dropped)
+            lost_specs = []
+            text, index = build(repo, out_path, prop, extra, dropped, lost_specs)
         except (ExtractError, rustscan.ScanError) as e:
             return all_undecided('extract: %s' % e)
         t0 = time.time()
@@ -351,6 +356,7 @@ def run_for_property(prop, repo, out_dir, log):
     if vr.get('encountered-vir-error') or 'verified' not in vr or (n_fb == 0 and re.search(r'^error', p.stderr, re.M)):
         first = re.findall(r'^error.*$', p.stderr, re.M)[:3]
         return all_undecided('verus rejected the extracted text (unsupported construct / type error): %s' % ' | '.join(first))
+    lost_names = {('%s%s' % ((sp['impl'] + '::') if sp.get('impl') else '', sp['name'])) for sp in lost_specs}
     dropped_names = {('%s%s' % ((sp['impl'] + '::') if sp.get('impl') else '', sp['name'])) for sp in dropped_specs}
     per_fn = {}
     for mod in data.get('times-ms', {}).get('smt', {}).get('smt-run-module-times', []):
@@ -376,7 +382,9 @@ def run_for_property(prop, repo, out_dir, log):
         rng = [(a, b) for (a, b, sp) in index if sp is s]
         my_errs = [msg for (msg, ln) in errs if rng and rng[0][0] <= ln <= rng[0][1]]
         secs = (fb or {}).get('time-micros', 0) / 1e6
-        if fq in dropped_names:
+        if fq in lost_names:
+            results.append({'obligation': mk_ob(s, 'undecided', 0), 'verdict': 'undecided', 'reason': 'lost anchor: the function no longer exists under this name (its Kani obligations, if any, decide)', 'assumptions': assumptions})
+        elif fq in dropped_names:
             results.append({'obligation': mk_ob(s, 'undecided', 0), 'verdict': 'undecided', 'reason': 'the function no longer fits the subset of Rust that Verus accepts (left out of the extracted file; its Kani obligations still run)', 'assumptions': assumptions})
         elif fb is None:
             results.append({'obligation': mk_ob(s, 'undecided', 0), 'verdict': 'undecided', 'reason': 'function missing from Verus output', 'assumptions': assumptions})
